@@ -452,7 +452,7 @@ func (t *Tree) DoBounded(b *Bounding, fn Operation) bool {
 }
 
 func (n *Node) doBounded(fn Operation, b *Bounding, depth int) (done bool) {
-	if n.Left != nil && b.Min.Compare(n.Point, n.Plane) < 0 {
+	if n.Left != nil && b.Min.Compare(n.Point, n.Plane) <= 0 {
 		done = n.Left.doBounded(fn, b, depth+1)
 		if done {
 			return
